@@ -94,6 +94,9 @@ func Check(c *fw.Ctx, scope string, order int64, in []byte) bool {
 // poisonV4 edits a decoded packet in every way a caller may: fields overwritten in place, an option added, values scribbled over.
 func poisonV4(p *dhcpv4.DHCPv4) {
 	for _, s := range [][]byte{p.ClientIPAddr, p.YourIPAddr, p.ServerIPAddr, p.GatewayIPAddr, p.ClientHWAddr} {
+		if fw.StdShared(s) {
+			continue
+		}
 		for i := range s {
 			s[i] = 0xee
 		}
